@@ -942,6 +942,38 @@ def generate(ctx: Ctx, scale: int, rng):
         c = {"kind": "parser", "wire": w.hex(), "cur": rng.choice([0, 0, 0, 1, 2, len(w), len(w) + 1]), "prog": prog, "lib": int(lib)}
         ctx.case(("parser", w, c["cur"], str(prog)), sample=c if len(str(prog)) < 120 else None)
         eval_case(ctx, c)
+    # type-specific numeric boundaries reached through text: the largest/smallest values of fields whose wire
+    # encoding is narrower than what the text syntax can say (LOC altitude/size/precision/angles, 8/16/32-bit fields)
+    LOC_ALT = ["-100000.00m", "-100000.01m", "-99999.99m", "42849672.95m", "42849672.96m", "42849672.97m", "42849673m", "0m", "-0.00m"]
+    LOC_SZ = ["0m", "0.00m", "0.009m", "0.01m", "90000000.00m", "90000000.01m", "99999999.99m", "100000000m", "1m"]
+    LOC_LAT = ["90 0 0.000 N", "90 0 0.001 N", "89 59 59.999 S", "90 N", "91 N", "0 0 0 N", "90 0 0.000 S"]
+    LOC_LON = ["180 0 0.000 E", "180 0 0.001 W", "179 59 59.999 W", "180 E", "181 E", "0 0 0 E"]
+    for _ in range(n(150)):
+        t = f"{rng.choice(LOC_LAT)} {rng.choice(LOC_LON)} {rng.choice(LOC_ALT)}"
+        for _k in range(rng.below(4)):
+            t += " " + rng.choice(LOC_SZ)
+        c = {"kind": "rdata.text", "rdclass": 1, "rdtype": 29, "text": t, "origin": 0, "relativize": 0, "all_styles": 1}
+        ctx.case(("rt-loc", t))
+        eval_case(ctx, c)
+        if rng.chance(1, 3):
+            c = {"kind": "zone.text", "text": f"@ 300 IN SOA ns. a. 1 2 3 4 5\n@ 300 IN NS ns.\nl 300 IN LOC {t}\n", "origin": 1, "relativize": 1, "check_origin": 1}
+            ctx.case(("zt-loc", t))
+            eval_case(ctx, c)
+    BOUND = ["0", "1", "127", "128", "255", "256", "32767", "32768", "65535", "65536", "2147483647", "2147483648", "4294967295", "4294967296",
+             "281474976710655", "281474976710656", "18446744073709551615", "18446744073709551616", "-1"]
+    for _ in range(n(1200)):
+        s_ = rng.choice(SAMPLES)
+        toks = s_["text"].split(" ")
+        idx = [i for i, tk in enumerate(toks) if tk.isdigit()]
+        if not idx:
+            continue
+        toks[rng.choice(idx)] = rng.choice(BOUND)
+        if len(idx) > 1 and rng.chance(1, 3):
+            toks[rng.choice(idx)] = rng.choice(BOUND)
+        t = " ".join(toks)
+        c = {"kind": "rdata.text", "rdclass": s_["rdclass"], "rdtype": s_["rdtype"], "text": t, "origin": 0, "relativize": 0}
+        ctx.case(("rt-bound", s_["rdtype"], t))
+        eval_case(ctx, c)
     # records with key / signature / digest material: every algorithm number with material of 0..4 octets (the
     # algorithm-specific code paths — key tags, truncated-crypto styles — see the shortest values the parsers accept)
     for rt, head in ((48, "0100 03"), (60, "0101 03"), (25, "0200 03")):
